@@ -107,4 +107,31 @@ def check(prog: Program, rep):
                           "model's own correct solution is reported invalid (is_valid_solution() False)", m.loc(rounds[0]))
         else:
             rep.ok("C08.R8", key, "solver values are compared with the sums of the edge lengths up to a tolerance", m.loc())
-
+    from rules.values import coefficients_converted
+    coefficients_converted(prog, rep, "C08.R8", ["kMinPathError", "kMinPathErrorCycles", "AbstractPathModelDAG"])
+    for cname in ("kMinPathError", "kMinPathErrorCycles"):
+        m = prog.own_method(cname, "is_valid_solution")
+        cmp_ = [c for c in ast.walk(m.node) if isinstance(c, ast.Compare) and "abs(" in norm(c.left) and "flow_attr" in norm(c.left)]
+        key = f"{cname}.is_valid_solution:scaled-error"
+        if not cmp_:
+            raise AnalysisError(f"{cname}.is_valid_solution: the comparison of |flow - load| with the slacks was not found")
+        if "edge_error_scaling" in norm(cmp_[0].left):
+            rep.ok("C08.R8", key, "the validity check scales |flow - load| by the edge's factor, like the model", m.loc(cmp_[0]))
+        else:
+            rep.violation("C08.R8", key, f"`{norm(cmp_[0].left)[:80]}` is compared with the slacks unscaled, while the model (and the documentation) scale the error of an edge by "
+                          "its factor: with error_scaling={e: 0.5} the model's own optimal solution is reported invalid", m.loc(cmp_[0]))
+    # empty paths (unused weights of a superset) have length 0: with path length ranges some range has to contain 0
+    init = prog.own_method("kMinPathError", "__init__")
+    zero = [st for st in ast.walk(init.node) if isinstance(st, ast.If) and "allow_empty_paths" in norm(st.test) and "path_length_ranges" in norm(st.test) and
+            any("[0, 0]" in norm(x) for x in st.body)]
+    key = "kMinPathError.__init__:empty-path-length"
+    uses_ranges = any("path_length_ranges" in norm(c) for c in calls_in(prog.own_method("kMinPathError", "_encode_minpatherror_decomposition_with_given_weights").node)
+                      if isinstance(c.func, ast.Attribute) and c.func.attr == "add_piecewise_constant_constraint")
+    if not uses_ranges:
+        rep.ok("C08.R8", key, "the given-weights model does not select factors by path length", init.loc())
+    elif zero:
+        rep.ok("C08.R8", key, "with empty paths allowed, length 0 lies in some range (the range [0, 0] is added when no given range contains it)", init.loc(zero[0]))
+    else:
+        rep.violation("C08.R8", key, "the length-to-factor selection is stated for every layer of the given-weights model, also for the unused weights whose paths are empty (length 0): "
+                      "if no range contains 0 every given weight is forced onto a real path (ranges [[1, 100]], factor 1, superset [5, 3] on s->a->t with flow 5: infeasible for "
+                      "k=1, slack 3 for k=2, optimum 0)", init.loc())
